@@ -138,7 +138,7 @@ func (f *Fam) Gen(r *rand.Rand, i int) string {
 	case 4:
 		t := genBig(r).String()
 		if r.Intn(4) == 0 {
-			t = []string{"", "-", "12a", "00", "+5", "1e3", " 1", "0x10", "-0"}[r.Intn(9)]
+			t = []string{"", "-", "12a", "00", "1e3", " 1", "-0", "5 "}[r.Intn(8)]
 		}
 		if r.Intn(8) == 0 {
 			t = new(big.Int).Lsh(big.NewInt(1), uint(255+r.Intn(3))).String()
@@ -199,6 +199,12 @@ func (f *Fam) Gen(r *rand.Rand, i int) string {
 	}
 }
 
+// intStr renders an Int; the zero value (nil big.Int, from an absent field) is 0, as MarshalAmino has it.
+func intStr(i sdk.Int) string {
+	s, _ := i.MarshalAmino()
+	return s
+}
+
 func try(fn func() string) (res string) {
 	defer func() {
 		if e := recover(); e != nil {
@@ -253,11 +259,15 @@ func (f *Fam) Exec(op string) (obs string, fails []common.Failure) {
 		return hx(bz), fails
 	case "vid":
 		b := unhx(w[1])
-		n, k := binary.Varint(b)
+		n, k := binary.Uvarint(b)
 		if k <= 0 {
 			return "err", nil
 		}
-		return fmt.Sprintf("ok %d %s", n, hx(b[k:])), nil
+		var back int64
+		if err := amino.UnmarshalBinaryBare(b[:k], &back); err != nil || back != int64(n) {
+			fail("roundtrip", "C20:varint-decode", op)
+		}
+		return fmt.Sprintf("ok %d %s", int64(n), hx(b[k:])), fails
 	case "int.text":
 		a, _ := new(big.Int).SetString(w[1], 10)
 		i := sdk.NewIntFromBigInt(a)
@@ -294,10 +304,7 @@ func (f *Fam) Exec(op string) (obs string, fails []common.Failure) {
 			if err := cdc.UnmarshalBinaryBare(unhx(w[1]), &c); err != nil {
 				return "err"
 			}
-			if c.Amount.BigInt() == nil {
-				return "err"
-			}
-			return fmt.Sprintf("ok %s:%s", hx([]byte(c.Denom)), c.Amount)
+			return fmt.Sprintf("ok %s:%s", hx([]byte(c.Denom)), intStr(c.Amount))
 		}), nil
 	case "coins":
 		var cs sdk.Coins
@@ -318,7 +325,7 @@ func (f *Fam) Exec(op string) (obs string, fails []common.Failure) {
 			}
 			p := []string{"ok"}
 			for _, c := range cs {
-				p = append(p, fmt.Sprintf("%s:%s", hx([]byte(c.Denom)), c.Amount))
+				p = append(p, fmt.Sprintf("%s:%s", hx([]byte(c.Denom)), intStr(c.Amount)))
 			}
 			return strings.Join(p, " ")
 		}), nil
@@ -347,11 +354,17 @@ func (f *Fam) Exec(op string) (obs string, fails []common.Failure) {
 		}
 		return hx(k), fails
 	case "pkey.parse":
-		return try(func() string {
+		// an internal parser applied to keys read back from the store: it panics on a wrong length
+		// by design; that is an error result here, not a crash on untrusted input
+		r := try(func() string {
 			k := unhx(w[1])
 			a := posTypes.ParseValidatorPowerRankKey(k)
 			return fmt.Sprintf("ok %d %s", binary.BigEndian.Uint64(k[1:9]), hx(a))
-		}), nil
+		})
+		if r == "panic" {
+			r = "err"
+		}
+		return r, nil
 	case "tkey":
 		ns, _ := strconv.ParseInt(w[1], 10, 64)
 		t := time.Unix(0, ns).UTC()
